@@ -1,5 +1,5 @@
 (** * ChainProofs: the forward scan along the chain of border nodes (model: ChainDefs.v) *)
-From Coq Require Import NArith List Bool Lia.
+From Coq Require Import NArith List Bool Lia Permutation.
 From Yk Require Import ChainDefs.
 Import ListNotations.
 Local Open Scope N_scope.
@@ -618,7 +618,8 @@ Lemma in_lk k n : In k (lk n) <-> live n = true /\ In k (cn_keys n).
 Proof. unfold lk. destruct (live n); cbn; intuition congruence. Qed.
 
 Definition ins_f k (x : cnode) := with_keys x (insert_sorted k (cn_keys x)) (bump_ins (cn_ver x)).
-Definition rem_f k (x : cnode) := with_keys x (remove_key k (cn_keys x)) (bump_ins (cn_ver x)).
+(** a remove leaves the version word of its border unchanged *)
+Definition rem_f k (x : cnode) := with_keys x (remove_key k (cn_keys x)) (cn_ver x).
 
 Lemma WF_ins ns f k n :
   WF ns f -> cover k ns = Some n -> ~ In k (all_keys ns) -> WF (update_node (cn_id n) (ins_f k) ns) f.
@@ -995,8 +996,14 @@ Record wmap (ns : list cnode) (g : cnode -> cnode) (gain lost : N -> Prop) : Pro
   g_id : forall x, cn_id (g x) = cn_id x;
   g_dead : forall x, In x ns -> live x = false -> g x = x;
   g_vle : forall x, In x ns -> vle (cn_ver x) (cn_ver (g x));
-  g_same : forall x, In x ns -> cn_ver (g x) = cn_ver x -> cn_keys (g x) = cn_keys x;
+  (* an unchanged version only excludes inserts, splits and the unlink: keys may have been removed *)
+  g_same : forall x, In x ns -> cn_ver (g x) = cn_ver x -> forall k, In k (cn_keys (g x)) -> In k (cn_keys x);
   g_lo : forall x, In x ns -> cn_lo (g x) <= cn_lo x;
+  (* a lower bound only moves when the node absorbs the range of the live node unlinked right before it *)
+  g_lo_up : forall x, In x ns -> live (g x) = true ->
+            cn_lo (g x) = cn_lo x \/
+            exists u U, find_node u ns = Some U /\ live U = true /\ live (g U) = false /\
+                        cn_lo (g x) = cn_lo U /\ first_live (after u ns) = Some x;
   g_keys : forall x, In x ns -> forall k, In k (lk (g x)) -> In k (lk x) \/ gain k;
   g_keep : forall x, In x ns -> forall k, In k (lk x) -> In k (lk (g x)) \/ lost k }.
 
@@ -1019,8 +1026,9 @@ Proof.
   - intros Hx Hd. destruct (N.eqb_spec (cn_id x) (cn_id n)) as [Ex|]; [|reflexivity].
     rewrite (Huniq x Hx Ex) in Hd. congruence.
   - intros _. destruct (_ =? _); [apply vle_bump_ins|apply vle_refl].
-  - intros _. destruct (_ =? _); [|reflexivity]. cbn. intros H. exfalso. exact (bump_ins_neq _ H).
+  - intros _. destruct (_ =? _); [|auto]. cbn. intros H. exfalso. exact (bump_ins_neq _ H).
   - intros _. destruct (_ =? _); cbn; lia.
+  - intros _ _. left. destruct (_ =? _); reflexivity.
   - intros _ k'. destruct (_ =? _); [|auto]. rewrite !in_lk. unfold live at 1. cbn. fold (live x).
     intros [H1 H2]. apply in_insert_sorted in H2 as [->|H2]; auto.
   - intros _ k'. destruct (_ =? _); [|auto]. rewrite !in_lk. unfold live at 2. cbn. fold (live x).
@@ -1040,9 +1048,10 @@ Proof.
   - destruct (_ =? _); reflexivity.
   - intros Hx Hd. destruct (N.eqb_spec (cn_id x) (cn_id n)) as [Ex|]; [|reflexivity].
     rewrite (nodup_uniq _ _ _ (wf_nodup _ _ W) Hx Hin Ex) in Hd. congruence.
-  - intros _. destruct (_ =? _); [apply vle_bump_ins|apply vle_refl].
-  - intros _. destruct (_ =? _); [|reflexivity]. cbn. intros H. exfalso. exact (bump_ins_neq _ H).
+  - intros _. destruct (_ =? _); apply vle_refl.
+  - intros _. destruct (_ =? _); [|auto]. cbn. intros _ k' Hk'. apply in_remove_key in Hk' as [Hk' _]. exact Hk'.
   - intros _. destruct (_ =? _); cbn; lia.
+  - intros _ _. left. destruct (_ =? _); reflexivity.
   - intros _ k'. destruct (_ =? _); [|auto]. rewrite !in_lk. unfold live at 1. cbn. fold (live x).
     intros [H1 H2]. apply in_remove_key in H2 as [H2 _]. auto.
   - intros _ k'. destruct (_ =? _); [|auto]. rewrite !in_lk. unfold live at 2. cbn. fold (live x).
@@ -1060,8 +1069,9 @@ Proof.
   - intros Hx Hd. destruct (N.eqb_spec (cn_id x) (cn_id T)) as [Ex|]; [|reflexivity].
     rewrite (nodup_uniq _ _ _ (wf_nodup _ _ W) Hx Hin Ex) in Hd. congruence.
   - intros _. destruct (_ =? _); [apply vle_bump_split|apply vle_refl].
-  - intros _. destruct (_ =? _); [|reflexivity]. cbn. intros H. exfalso. exact (bump_split_neq _ H).
+  - intros _. destruct (_ =? _); [|auto]. cbn. intros H. exfalso. exact (bump_split_neq _ H).
   - intros _. destruct (_ =? _); cbn; lia.
+  - intros _ _. left. destruct (_ =? _); reflexivity.
   - intros _ k'. destruct (_ =? _); [|auto]. rewrite !in_lk. unfold live at 1. cbn. fold (live x).
     intros [H1 H2]. apply filter_In in H2 as [H2 _]. auto.
   - intros Hx k'. destruct (N.eqb_spec (cn_id x) (cn_id T)) as [Ex|]; [|auto].
@@ -1080,9 +1090,10 @@ Lemma wmap_unlink ns f u U nu L :
   (forall x, cn_id (L x) = cn_id x /\ cn_ver (L x) = cn_ver x /\ cn_keys (L x) = cn_keys x) ->
   (forall x, In x ns -> live x = false -> L x = x) ->
   (forall x, In x ns -> cn_lo (L x) <= cn_lo x) ->
+  (forall x, In x ns -> cn_lo (L x) = cn_lo x \/ (cn_lo (L x) = cn_lo U /\ first_live (after u ns) = Some x)) ->
   wmap ns (unl_g u nu L) (fun _ => False) (fun _ => False).
 Proof.
-  intros W Hf LU KU HL HLd HLlo. destruct (find_node_In _ _ _ Hf) as [Hin Hid]. subst u.
+  intros W Hf LU KU HL HLd HLlo HLup. destruct (find_node_In _ _ _ Hf) as [Hin Hid]. subst u.
   assert (Hu : forall x, In x ns -> cn_id x = cn_id U -> x = U)
     by (intros x Hx Ex; exact (nodup_uniq _ _ _ (wf_nodup _ _ W) Hx Hin Ex)).
   assert (Hlive : forall x, live (redir (cn_id U) nu (L x)) = live x).
@@ -1096,8 +1107,13 @@ Proof.
   - intros Hx. destruct (N.eqb_spec (cn_id x) (cn_id U)) as [Ex|].
     + cbn. rewrite redir_ver, L2. rewrite (Hu x Hx Ex). intros H. apply (f_equal cv_del) in H. cbn in H.
       unfold live in LU. rewrite <- H in LU. discriminate.
-    + intros _. rewrite redir_keys. exact L3.
+    + intros _ k. rewrite redir_keys, L3. auto.
   - intros Hx. destruct (_ =? _); cbn; rewrite redir_lo; auto.
+  - intros Hx. destruct (N.eqb_spec (cn_id x) (cn_id U)) as [Ex|Ex].
+    + cbn. discriminate.
+    + rewrite redir_lo. intros _. destruct (HLup x Hx) as [E|[E1 E2]]; [left; exact E|right].
+      exists (cn_id U), U. split; [exact Hf|]. split; [exact LU|]. split; [|split; assumption].
+      unfold unl_g, upd. rewrite redir_id. destruct (HL U) as (LU1&_&_). rewrite LU1, N.eqb_refl. reflexivity.
   - intros Hx k. destruct (N.eqb_spec (cn_id x) (cn_id U)) as [Ex|].
     + rewrite in_lk. cbn. intros [_ []].
     + rewrite !in_lk, Hlive, redir_keys, L3. auto.
@@ -1130,21 +1146,24 @@ Lemma L_right_facts ns f u U NX :
   let L := upd (cn_id NX) (lo_f (cn_lo U)) in
   (forall x, cn_id (L x) = cn_id x /\ cn_ver (L x) = cn_ver x /\ cn_keys (L x) = cn_keys x) /\
   (forall x, In x ns -> live x = false -> L x = x) /\
-  (forall x, In x ns -> cn_lo (L x) <= cn_lo x).
+  (forall x, In x ns -> cn_lo (L x) <= cn_lo x) /\
+  (forall x, In x ns -> cn_lo (L x) = cn_lo x \/ (cn_lo (L x) = cn_lo U /\ first_live (after u ns) = Some x)).
 Proof.
-  intros W Hf LU Hfl L. destruct (find_node_split _ _ _ Hf) as (l1&l2&E&Hn&Hid).
+  intros W Hf LU Hfl L. pose proof Hfl as Hfl0. destruct (find_node_split _ _ _ Hf) as (l1&l2&E&Hn&Hid).
   rewrite E, after_mid in Hfl by auto. destruct (first_live_split _ _ Hfl) as (d&l3&E2&Hd&LN).
   assert (HinN : In NX ns).
   { rewrite E, E2. apply in_or_app. right. right. apply in_or_app. right. left. reflexivity. }
   assert (Hlo : cn_lo U <= cn_lo NX).
   { rewrite E in W. destruct (WF_pair _ _ _ _ W) as [_ Pb].
     apply (Pb NX); auto. rewrite E2. apply in_or_app. right. left. reflexivity. }
-  subst L. unfold upd. split; [|split]; intros x.
+  subst L. unfold upd. split; [|split; [|split]]; intros x.
   - destruct (_ =? _); auto.
   - intros Hx Hdx. destruct (N.eqb_spec (cn_id x) (cn_id NX)) as [Ex|]; [|reflexivity].
     rewrite (nodup_uniq _ _ _ (wf_nodup _ _ W) Hx HinN Ex) in Hdx. congruence.
   - intros Hx. destruct (N.eqb_spec (cn_id x) (cn_id NX)) as [Ex|]; [|lia].
     rewrite (nodup_uniq _ _ _ (wf_nodup _ _ W) Hx HinN Ex). cbn. exact Hlo.
+  - intros Hx. destruct (N.eqb_spec (cn_id x) (cn_id NX)) as [Ex|]; [right|left; reflexivity].
+    rewrite (nodup_uniq _ _ _ (wf_nodup _ _ W) Hx HinN Ex). cbn. split; [reflexivity|exact Hfl0].
 Qed.
 
 (** one description for all four writer steps *)
@@ -1154,7 +1173,7 @@ Definition wshape (s s' : cstate) (g : cnode -> cnode) (gain lost : N -> Prop) :
       (forall k, In k (c_stable s') -> ~ lost k)) \/
      (exists t T nw, find_node t (c_nodes s) = Some T /\ live T = true /\
         (cn_ver (g T) <> cn_ver T /\ live (g T) = true) /\
-        cn_id nw = c_fresh s /\ live nw = true /\ (forall k, lost k <-> In k (lk nw)) /\
+        cn_id nw = c_fresh s /\ (live nw = true /\ cn_lo T <= cn_lo nw) /\ (forall k, lost k <-> In k (lk nw)) /\
         (forall k, In k (lk nw) -> In k (lk T)) /\ (forall k, ~ gain k) /\
         c_stable s' = c_stable s /\
         c_nodes s' = insert_after t nw (map g (c_nodes s)))).
@@ -1199,17 +1218,19 @@ Proof.
     destruct (find_node_In _ _ _ Hf) as [Hin Hid].
     split; [exact Hf|]. split; [exact LT|]. split.
     { unfold upd. rewrite Hid, N.eqb_refl. cbn. split; [apply bump_split_neq|exact LT]. }
-    split; [reflexivity|]. split; [reflexivity|]. split; [tauto|]. split.
+    split; [reflexivity|]. split.
+    { split; [reflexivity|]. cbn. destruct (wf_ok _ _ W T Hin) as [_ Hlo]. apply Hlo, Hm. }
+    split; [tauto|]. split.
     { intros k. rewrite !in_lk. cbn. intros [_ Hk]. apply filter_In in Hk as [Hk _]. auto. }
     split; [auto|]. split; [reflexivity|]. rewrite update_node_map by exact Hnd. reflexivity.
   - apply cstep_unlink in H as (U&Hf&LU&HK&[(_&NX&Hfl&->)|(_&->)]); (split; [reflexivity|]).
-    + destruct (L_right_facts _ _ _ _ _ W Hf LU Hfl) as (A1&A2&A3).
+    + destruct (L_right_facts _ _ _ _ _ W Hf LU Hfl) as (A1&A2&A3&A4).
       exists (unl_g id (cn_next U) (upd (cn_id NX) (lo_f (cn_lo U)))), (fun _ => False), (fun _ => False).
       split; [eapply wmap_unlink; eauto|]. cbn.
       split; [auto|]. split; [auto|]. split; [auto|]. split; [intros ? []|]. split; [intros ? []|].
       left. split; [apply unlink_right_map, Hnd|]. split; auto.
     + exists (unl_g id (cn_next U) (fun x => x)), (fun _ => False), (fun _ => False).
-      split; [eapply wmap_unlink; eauto; intros; lia|]. cbn.
+      split; [eapply wmap_unlink; eauto; intros; solve [lia|left; reflexivity]|]. cbn.
       split; [auto|]. split; [auto|]. split; [auto|]. split; [intros ? []|]. split; [intros ? []|].
       left. split; [apply unlink_left_map, Hnd|]. split; auto.
 Qed.
@@ -1515,6 +1536,57 @@ Proof.
   assert (y = T) by (apply (nodup_uniq ns); auto; congruence). subst y. exact Hy.
 Qed.
 
+(** [B] is below the lower bound of every live node of [l]: what a reader keeps of a key it saw in a node
+    once that key may have been removed (the version of the node does not tell) *)
+Definition lo_above (B : N) (l : list cnode) : Prop := forall b, In b l -> live b = true -> B < cn_lo b.
+
+Lemma first_live_app_live l n l2 x : live n = true -> first_live (l ++ n :: l2) = Some x -> In x (l ++ [n]).
+Proof.
+  intros Ln. induction l as [|y l IH]; cbn [app first_live].
+  - rewrite Ln. intros H. injection H as <-. left. reflexivity.
+  - destruct (live y).
+    + intros H. injection H as <-. left. reflexivity.
+    + intros H. right. apply IH, H.
+Qed.
+
+Lemma nodup_ids_app_disj (a b : list cnode) x : NoDup (ids (a ++ b)) -> In x a -> In x b -> False.
+Proof.
+  intros Hnd Ha Hb. apply in_split in Ha as (a1&a2&->). rewrite <- app_assoc in Hnd. cbn [app] in Hnd.
+  destruct (nodup_mid _ _ _ Hnd) as [_ N2]. apply N2. rewrite ids_app. apply in_or_app. right.
+  apply in_map. exact Hb.
+Qed.
+
+(** the node that takes over the range of an unlinked node [U] is the first live node after it: seen from a
+    live node [n] other than [U], both are on the same side *)
+Lemma after_first_live_pos ns id n u U x :
+  NoDup (ids ns) -> find_node id ns = Some n -> live n = true -> find_node u ns = Some U -> id <> u ->
+  first_live (after u ns) = Some x -> In x (after id ns) -> In U (after id ns).
+Proof.
+  intros Hnd Hf Ln HfU Hne Hfl Hx.
+  destruct (find_node_split _ _ _ Hf) as (l1&l2&E&Hn&Hid). destruct (find_node_In _ _ _ HfU) as [HinU HidU].
+  subst ns. rewrite after_mid in Hx by assumption. rewrite after_mid by assumption.
+  assert (Hnd2 : NoDup (ids ((l1 ++ [n]) ++ l2))) by (rewrite <- app_assoc; exact Hnd).
+  apply in_app_or in HinU as [HinU|[EU|HinU]];
+    [|exfalso; apply Hne; rewrite <- Hid, <- HidU, EU; reflexivity|exact HinU].
+  exfalso. apply in_split in HinU as (a&b&->).
+  assert (N1 : ~ In u (ids a)).
+  { rewrite <- app_assoc in Hnd. cbn [app] in Hnd. destruct (nodup_mid _ _ _ Hnd) as [N1 _].
+    rewrite HidU in N1. exact N1. }
+  rewrite <- app_assoc in Hfl. cbn [app] in Hfl. rewrite after_mid in Hfl by assumption.
+  apply (first_live_app_live b n l2 x Ln) in Hfl.
+  apply (nodup_ids_app_disj _ _ x Hnd2); [|exact Hx].
+  apply in_app_or in Hfl as [Hfl|Hfl]; apply in_or_app; [left; apply in_or_app; right; right; exact Hfl|right; exact Hfl].
+Qed.
+
+Lemma in_insert_after_inv x t nw l : In x (insert_after t nw l) -> (x = nw /\ In t (ids l)) \/ In x l.
+Proof.
+  induction l as [|y l IH]; [intros []|]. cbn [insert_after ids map].
+  destruct (N.eqb_spec (cn_id y) t) as [E|E]; cbn [In].
+  - intros [H|[H|H]]; [right; left; exact H|left; split; [symmetry; exact H|left; exact E]|right; right; exact H].
+  - intros [H|H]; [right; left; exact H|]. destruct (IH H) as [[H1 H2]|H1]; [left; split; [exact H1|right; exact H2]|].
+    right; right; exact H1.
+Qed.
+
 Section Shape.
   Variables (s s' : cstate) (g : cnode -> cnode) (gain lost : N -> Prop).
   Hypothesis W : WF (c_nodes s) (c_fresh s).
@@ -1552,6 +1624,37 @@ Section Shape.
       + rewrite ids_map by exact gid. apply (wf_nodup _ _ W).
       + pose proof (wf_fresh _ _ W n Hin). lia.
       + assumption.
+  Qed.
+
+  Lemma wshape_lo_above id n B :
+    find_node id (c_nodes s) = Some n -> live n = true -> cn_ver (g n) = cn_ver n ->
+    lo_above B (after id (c_nodes s)) -> lo_above B (after id (c_nodes s')).
+  Proof.
+    intros Hf Ln Hv Hab. pose proof (g_id _ _ _ _ Wm) as gid. pose proof (wf_nodup _ _ W) as Hnd.
+    destruct (find_node_In _ _ _ Hf) as [Hin Hid].
+    assert (Hmap : forall b, In b (after id (c_nodes s)) -> live (g b) = true -> B < cn_lo (g b)).
+    { intros b Hb Lb. pose proof (in_after _ _ _ Hb) as Hbin.
+      destruct (g_lo_up _ _ _ _ Wm b Hbin Lb) as [E|(u&U&HfU&LU&LgU&E&Hfl)]; rewrite E.
+      - apply Hab; [exact Hb|]. destruct (live b) eqn:L; [reflexivity|].
+        rewrite (g_dead _ _ _ _ Wm b Hbin L) in Lb. congruence.
+      - apply Hab; [|exact LU]. apply (after_first_live_pos _ id n u U b); auto.
+        intros ->. rewrite Hf in HfU. injection HfU as ->.
+        rewrite (live_same_ver (g U) U) in LgU by (rewrite Hv; reflexivity). congruence. }
+    destruct Hsh as [(->&_)|(t&T&nw&HfT&LT&(HvT&LgT)&Hnw&(_&HloT)&_&_&_&_&->)].
+    - rewrite after_map by exact gid. intros b' Hb' Lb'. apply in_map_iff in Hb' as (b&<-&Hb).
+      apply Hmap; assumption.
+    - destruct (find_node_In _ _ _ HfT) as [HinT HidT].
+      assert (id <> t).
+      { intros ->. rewrite Hf in HfT. injection HfT as ->. contradiction. }
+      rewrite after_insert_after;
+        [|rewrite ids_map by exact gid; exact Hnd|pose proof (wf_fresh _ _ W n Hin); lia|assumption].
+      rewrite after_map by exact gid. intros b' Hb' Lb'.
+      apply in_insert_after_inv in Hb' as [[-> Ht]|Hb'].
+      + rewrite ids_map in Ht by exact gid.
+        assert (HTa : In T (after id (c_nodes s))).
+        { apply (in_ids_find (c_nodes s) t); auto. intros x; apply in_after. }
+        specialize (Hab T HTa LT). lia.
+      + apply in_map_iff in Hb' as (b&<-&Hb). apply Hmap; assumption.
   Qed.
 
   Lemma wshape_before_keys id n k :
@@ -1630,7 +1733,12 @@ Record InvB (s : cstate) : Prop := {
            exists n, find_node id (c_nodes s) = Some n /\ vle v (cn_ver n);
   ib_snap : sc_pc (c_scan s) = CNextVer \/ sc_pc (c_scan s) = CValidate ->
            forall c, find_node (sc_cur (c_scan s)) (c_nodes s) = Some c -> cn_ver c = sc_v (c_scan s) ->
-           sc_snap (c_scan s) = cn_keys c /\ next_ok (sc_nxt (c_scan s)) (after (sc_cur (c_scan s)) (c_nodes s));
+           (* the version does not count removes: the snapshot is a superset of the keys of the node *)
+           (forall k, In k (cn_keys c) -> In k (sc_snap (c_scan s))) /\
+           next_ok (sc_nxt (c_scan s)) (after (sc_cur (c_scan s)) (c_nodes s)) /\
+           (* ... and every key of the snapshot, still there or not, is below the range of all later nodes *)
+           (forall k, In k (sc_snap (c_scan s)) ->
+              live c = true /\ lo_above k (after (sc_cur (c_scan s)) (c_nodes s)));
   ib_nxt : sc_pc (c_scan s) = CNextVer \/ sc_pc (c_scan s) = CValidate ->
            forall y, sc_nxt (c_scan s) = Some y ->
            exists Y, find_node y (c_nodes s) = Some Y /\
@@ -1664,9 +1772,12 @@ Proof.
     pose proof (g_vle _ _ _ _ Wm c (proj1 (find_node_In _ _ _ Hf))) as Hv2.
     assert (Ec : cn_ver c = sc_v (c_scan s)).
     { apply vle_antisym; [rewrite <- Hv'; exact Hv2|exact Hv]. }
-    destruct (B3 Hpc c Hf Ec) as [Hsnap Hnx]. split.
-    + rewrite Hsnap. symmetry. apply (g_same _ _ _ _ Wm); [apply (find_node_In _ _ _ Hf)|congruence].
+    destruct (B3 Hpc c Hf Ec) as (Hsnap&Hnx&Hlo). split; [|split].
+    + intros k Hk. apply Hsnap. apply (g_same _ _ _ _ Wm c); [apply (find_node_In _ _ _ Hf)|congruence|exact Hk].
     + eapply wshape_after; eauto. congruence.
+    + intros k Hk. destruct (Hlo k Hk) as [Lc Hab]. split.
+      * rewrite (live_same_ver (g c) c) by (f_equal; congruence). exact Lc.
+      * apply (wshape_lo_above _ _ _ _ _ W Wm Hsh _ c); auto. congruence.
   - intros Hpc y Hy. destruct (B4 Hpc y Hy) as (Y&Hf&Hv). exists (g Y). split; [apply Hfind, Hf|].
     intros Hp. eapply vle_trans; [exact (Hv Hp)|]. apply (g_vle _ _ _ _ Wm), (find_node_In _ _ _ Hf).
   - intros Hs k Hk Hi. destruct (B1 Hs) as (c&Hf&_).
@@ -1698,22 +1809,29 @@ Proof. unfold in_interval. intros H. apply andb_true_iff in H as [_ H]. exact H.
 Lemma le_r_mono r a b : a <= b -> le_r b r = true -> le_r a r = true.
 Proof. destruct r as [x|]; cbn; [|auto]. rewrite !N.leb_le. lia. Qed.
 
-(** after a validated node that holds a key beyond r, or has no successor, nothing of the interval follows *)
-Lemma nothing_after ns f cur c l r k :
-  WF ns f -> find_node cur ns = Some c ->
-  ((exists k0, In k0 (cn_keys c) /\ le_r k0 r = false) \/ next_ok None (after cur ns)) ->
+(** keys of a live node are below the lower bounds of the live nodes after it *)
+Lemma after_above ns f id c k :
+  WF ns f -> find_node id ns = Some c -> In k (cn_keys c) -> live c = true /\ lo_above k (after id ns).
+Proof.
+  intros W Hf Hk. destruct (find_node_split _ _ _ Hf) as (l1&l2&E&Hn&Hid). rewrite E in *.
+  rewrite after_mid by auto. destruct (WF_pair _ _ _ _ W) as [_ Pb].
+  assert (Hinc : In c (l1 ++ c :: l2)) by (apply in_or_app; right; left; reflexivity).
+  assert (Lc : live c = true).
+  { destruct (live c) eqn:L; [reflexivity|]. rewrite (wf_dead _ _ W c Hinc L) in Hk. destruct Hk. }
+  split; [exact Lc|]. intros b Hb Lb. destruct (Pb b Hb Lc Lb) as [_ Q]. apply Q, Hk.
+Qed.
+
+(** after a validated node that held a key beyond r when it was read, or has no successor, nothing of the
+    interval follows *)
+Lemma nothing_after ns f cur l r k :
+  WF ns f ->
+  ((exists k0, le_r k0 r = false /\ lo_above k0 (after cur ns)) \/ next_ok None (after cur ns)) ->
   In k (all_keys (after cur ns)) -> in_interval l r k = true -> False.
 Proof.
-  intros W Hf Hcase Hk Hi. destruct Hcase as [(k0&Hk0&Hr)|Hnone].
-  - destruct (find_node_split _ _ _ Hf) as (l1&l2&E&Hn&Hid). rewrite E in *. rewrite after_mid in Hk by auto.
-    destruct (WF_pair _ _ _ _ W) as [_ Pb].
-    assert (Hinc : In c (l1 ++ c :: l2)) by (apply in_or_app; right; left; reflexivity).
-    assert (Lc : live c = true).
-    { destruct (live c) eqn:L; [reflexivity|]. rewrite (wf_dead _ _ W c Hinc L) in Hk0. destruct Hk0. }
-    apply in_all_keys in Hk as (b&Hb&Hkb). apply in_lk in Hkb as [Lb Hkb].
-    destruct (Pb b Hb Lc Lb) as [_ Q]. specialize (Q k0 Hk0).
-    assert (Hinb : In b (l1 ++ c :: l2)) by (apply in_or_app; right; right; exact Hb).
-    destruct (wf_ok _ _ W b Hinb) as [_ Hlo]. specialize (Hlo k Hkb).
+  intros W Hcase Hk Hi. destruct Hcase as [(k0&Hr&Hab)|Hnone].
+  - apply in_all_keys in Hk as (b&Hb&Hkb). apply in_lk in Hkb as [Lb Hkb].
+    specialize (Hab b Hb Lb).
+    destruct (wf_ok _ _ W b (in_after _ _ _ Hb)) as [_ Hlo]. specialize (Hlo k Hkb).
     apply in_interval_le_r in Hi. rewrite (le_r_mono r k0 k) in Hr; [discriminate|lia|exact Hi].
   - rewrite all_keys_dead in Hk; [destruct Hk|]. apply next_ok_none, Hnone.
 Qed.
@@ -1729,8 +1847,9 @@ Proof.
   - apply cstep_read in H as (Hpc&c&Hf&->). destruct IB as [B1 B2 B3 B4 B5 B6].
     assert (Hs : scanning (c_scan s) = true) by (unfold scanning; rewrite Hpc; reflexivity).
     constructor; cbn; auto; try discriminate.
-    + intros _ c' Hf' _. rewrite Hf in Hf'. injection Hf' as <-. split; [reflexivity|].
-      eapply nexts_ok_after; [apply (wf_next _ _ W)|exact Hf].
+    + intros _ c' Hf' _. rewrite Hf in Hf'. injection Hf' as <-. split; [auto|]. split.
+      * eapply nexts_ok_after; [apply (wf_next _ _ W)|exact Hf].
+      * intros k Hk. eapply after_above; eauto.
     + intros _ y Hy. pose proof (nexts_ok_after _ _ _ (wf_next _ _ W) Hf) as Hn. rewrite Hy in Hn.
       apply next_ok_in in Hn. unfold ids in Hn. apply in_map_iff in Hn as (Y&<-&HY).
       apply in_after in HY. exists Y. split; [apply nodup_find; assumption|discriminate].
@@ -1744,7 +1863,7 @@ Proof.
     destruct Hcases as [(n&Hc&->)|[(Hv&Hst&Hcases)|(Hv&Hdel&->)]].
     + eapply InvB_restart; cbn; eauto.
     + destruct IB as [B1 B2 B3 B4 B5 B6].
-      destruct (B3 (or_intror Hpc) c Hf Hv) as [Hsnap Hnx].
+      destruct (B3 (or_intror Hpc) c Hf Hv) as (Hsnap&Hnx&Hlo).
       assert (Hnv : forall id v, In (id, v) (sc_nvset (c_scan s) ++ [(sc_cur (c_scan s), sc_v (c_scan s))]) ->
                 exists n, find_node id (c_nodes s) = Some n /\ vle v (cn_ver n)).
       { intros id v Hin. apply in_app_or in Hin as [Hin|[Hin|[]]]; [auto|]. injection Hin as <- <-.
@@ -1759,13 +1878,13 @@ Proof.
         apply in_app_or in Hall as [Hall|Hall]; [contradiction|].
         apply in_app_or in Hall as [Hall|Hall]; [|right; exact Hall].
         left. apply in_or_app. right. apply filter_In. split; [|exact Hi].
-        rewrite Hsnap. apply in_lk in Hall. apply Hall. }
+        apply Hsnap. apply in_lk in Hall. apply Hall. }
       destruct Hcases as [(Hend&->)|(nx&Hbey&Hnxt&->)].
       * constructor; cbn; auto; try discriminate; try (intros [|]; discriminate).
         intros _ k Hk Hi. destruct (Hkeys k Hk Hi) as [H|H]; [exact H|]. exfalso.
-        eapply (nothing_after _ _ _ c); eauto.
+        eapply (nothing_after _ _ (sc_cur (c_scan s))); eauto.
         destruct Hend as [Hb|Hn]; [left|right; rewrite <- Hn; exact Hnx].
-        apply beyond_spec in Hb as (k0&Hk0&Hr). exists k0. rewrite <- Hsnap. auto.
+        apply beyond_spec in Hb as (k0&Hk0&Hr). exists k0. split; [exact Hr|apply (Hlo k0 Hk0)].
       * rewrite Hnxt in Hnx. destruct (next_ok_some _ _ Hnx) as (d&Y&l3&Ea&HidY&Hd).
         destruct (before_via _ _ _ _ _ _ Hnd Hf Ea) as [Ebef HfY]. rewrite HidY in *.
         constructor; cbn; auto; try discriminate; try (intros [|]; discriminate).
@@ -1778,7 +1897,7 @@ Proof.
              apply Hnin. rewrite deliver_res_eq. apply in_or_app. left. exact H'. }
            apply in_app_or in Hb as [Hb|Hb].
            { apply Hnin. rewrite deliver_res_eq. apply in_or_app. right. apply filter_In. split; [|exact Hi].
-             rewrite Hsnap. apply in_lk in Hb. apply Hb. }
+             apply Hsnap. apply in_lk in Hb. apply Hb. }
            rewrite (all_keys_dead d Hd) in Hb. destruct Hb.
     + destruct IB as [B1 B2 B3 B4 B5 B6].
       constructor; cbn; auto; try discriminate; try (intros [|]; discriminate).
@@ -1923,12 +2042,16 @@ Record InvC (s : cstate) : Prop := {
               cn_lo n <= sc_l (c_scan s) /\ cv_del (snd (first_rec (c_scan s))) = false;
   ic_empty : sc_nvset (c_scan s) = [] -> sc_res (c_scan s) = [] /\ sc_pc (c_scan s) <> CDone;
   ic_main : Hcur s -> forall rest pm vm, sc_nvset (c_scan s) = rest ++ [(pm, vm)] ->
-    sc_res (c_scan s) = filter (in_interval (sc_l (c_scan s)) (sc_r (c_scan s))) (all_keys (upto pm (c_nodes s))) /\
+    (* removes are invisible in the versions: the result covers the present keys, it may hold removed ones *)
+    (forall k, In k (all_keys (upto pm (c_nodes s))) ->
+       in_interval (sc_l (c_scan s)) (sc_r (c_scan s)) k = true -> In k (sc_res (c_scan s))) /\
     (forall n, In n (upto pm (c_nodes s)) -> live n = true ->
        recorded (c_scan s) (cn_id n) \/ In (cn_id n) (ids (before (fst (first_rec (c_scan s))) (c_nodes s)))) /\
     (scanning (c_scan s) = true -> next_ok (Some (sc_cur (c_scan s))) (after pm (c_nodes s))) /\
     (sc_pc (c_scan s) = CDone ->
-       (exists PM k0, find_node pm (c_nodes s) = Some PM /\ In k0 (cn_keys PM) /\ le_r k0 (sc_r (c_scan s)) = false) \/
+       (exists k0, le_r k0 (sc_r (c_scan s)) = false /\
+          (exists PM, find_node pm (c_nodes s) = Some PM /\ live PM = true) /\
+          lo_above k0 (after pm (c_nodes s))) \/
        next_ok None (after pm (c_nodes s))) }.
 
 Lemma InvC_init kss : kss_ok kss = true -> InvC (cinit kss).
@@ -1987,32 +2110,31 @@ Proof.
     assert (HlogP1 : cn_lo (g P1) <= sc_l (c_scan s)).
     { pose proof (g_lo _ _ _ _ Wm P1 (proj1 (find_node_In _ _ _ HfP1))). lia. }
     (* keys before the first recorded node are outside the interval, before and after the step *)
-    assert (Hlow : forall n, In n (before p1 (c_nodes s)) ->
-              filter (in_interval (sc_l (c_scan s)) (sc_r (c_scan s))) (lk n) = []).
-    { intros n Hn. apply filter_below. intros k Hk.
-      assert (k < cn_lo P1); [|lia].
-      apply (before_below (c_nodes s) (c_fresh s) p1 P1 k W HfP1 LP1). apply in_all_keys. eauto. }
-    assert (Hlow' : forall n, In n (before p1 (c_nodes s')) ->
-              filter (in_interval (sc_l (c_scan s)) (sc_r (c_scan s))) (lk n) = []).
-    { intros n Hn. apply filter_below. intros k Hk.
-      assert (k < cn_lo (g P1)); [|lia].
-      apply (before_below (c_nodes s') (c_fresh s') p1 (g P1) k W' (Hfind _ _ HfP1) LgP1).
-      apply in_all_keys. eauto. }
-    (* pointwise: the delivered part of every node up to pm is unchanged *)
-    assert (Hpt : forall n, In n (upto pm (c_nodes s)) ->
-              filter (in_interval (sc_l (c_scan s)) (sc_r (c_scan s))) (lk (g n)) =
-              filter (in_interval (sc_l (c_scan s)) (sc_r (c_scan s))) (lk n)).
-    { intros n Hn. pose proof (in_upto _ _ _ Hn) as Hnin. destruct (live n) eqn:Ln.
+    assert (Hlow' : forall n k, In n (before p1 (c_nodes s')) -> In k (lk n) ->
+              in_interval (sc_l (c_scan s)) (sc_r (c_scan s)) k = true -> False).
+    { intros n k Hn Hk Hi.
+      assert (k < cn_lo (g P1)).
+      { apply (before_below (c_nodes s') (c_fresh s') p1 (g P1) k W' (Hfind _ _ HfP1) LgP1).
+        apply in_all_keys. eauto. }
+      apply in_interval_l in Hi. lia. }
+    (* pointwise: the part of every node up to pm that lies in the interval can only shrink *)
+    assert (Hpt : forall n, In n (upto pm (c_nodes s)) -> forall k, In k (lk (g n)) ->
+              in_interval (sc_l (c_scan s)) (sc_r (c_scan s)) k = true -> In k (lk n)).
+    { intros n Hn k Hk Hi. pose proof (in_upto _ _ _ Hn) as Hnin. destruct (live n) eqn:Ln.
       - destruct (R2 n Hn Ln) as [Hr|Hb].
         + unfold recorded in Hr. apply in_map_iff in Hr as ([id v]&Eid&Hin). cbn in Eid. subst id.
           destruct (Hrec _ _ Hin) as (n'&Hf'&_&Hg'). rewrite (nodup_find _ _ Hnd Hnin) in Hf'. injection Hf' as <-.
-          unfold lk. rewrite (live_same_ver (g n) n) by (rewrite Hg'; reflexivity).
-          rewrite (g_same _ _ _ _ Wm n Hnin Hg'). reflexivity.
-        + assert (Hnb : In n (before p1 (c_nodes s))).
+          apply in_lk in Hk as [_ Hk]. apply in_lk. split; [exact Ln|].
+          exact (g_same _ _ _ _ Wm n Hnin Hg' k Hk).
+        + exfalso. assert (Hnb : In n (before p1 (c_nodes s))).
           { apply (in_ids_find (c_nodes s) (cn_id n)); auto; [intros x; apply in_before|apply nodup_find; auto]. }
-          rewrite (Hlow n Hnb). apply Hlow'.
+          apply (Hlow' (g n) k); [|exact Hk|exact Hi].
           exact (wshape_before_in s s' g gain lost W Wm Hsh p1 P1 n HfP1 Hnb).
-      - rewrite (g_dead _ _ _ _ Wm n Hnin Ln). reflexivity. }
+      - rewrite (g_dead _ _ _ _ Wm n Hnin Ln) in Hk. exact Hk. }
+    assert (Hptk : forall k, In k (all_keys (map g (upto pm (c_nodes s)))) ->
+              in_interval (sc_l (c_scan s)) (sc_r (c_scan s)) k = true -> In k (all_keys (upto pm (c_nodes s)))).
+    { intros k Hk Hi. apply in_all_keys in Hk as (y&Hy&Hky). apply in_map_iff in Hy as (n&<-&Hn).
+      apply in_all_keys. exists n. split; [exact Hn|apply Hpt; assumption]. }
     assert (Hcl : forall n, In n (upto pm (c_nodes s)) -> live (g n) = true ->
               recorded (c_scan s) (cn_id (g n)) \/ In (cn_id (g n)) (ids (before p1 (c_nodes s')))).
     { intros n Hn Lgn. pose proof (in_upto _ _ _ Hn) as Hnin.
@@ -2024,10 +2146,12 @@ Proof.
       rewrite <- (gid n). apply in_map.
       exact (wshape_before_in s s' g gain lost W Wm Hsh p1 P1 n HfP1 Hnb). }
     split; [|split; [|split]].
-    + rewrite R1. destruct (wshape_upto _ _ _ _ _ W Wm Hsh pm PM HfPM HgPM) as [->|(t&T&nw&HfT&LT&HTin&HvT&Hnw&->)].
-      * symmetry. apply filter_all_keys_map, Hpt.
-      * rewrite filter_all_keys_insert_after; [symmetry; apply filter_all_keys_map, Hpt|].
-        apply Hlow'. apply (Hnw p1 P1 HfP1).
+    + intros k Hk Hi. apply R1; [|exact Hi].
+      destruct (wshape_upto _ _ _ _ _ W Wm Hsh pm PM HfPM HgPM) as [E|(t&T&nw&HfT&LT&HTin&HvT&Hnw&E)];
+        rewrite E in Hk.
+      * apply Hptk; assumption.
+      * apply in_all_keys_insert_after in Hk as [Hk|[_ Hk]]; [apply Hptk; assumption|].
+        exfalso. apply (Hlow' nw k); [|exact Hk|exact Hi]. apply (Hnw p1 P1 HfP1).
         assert (HTu : In T (upto pm (c_nodes s))) by (apply in_or_app; left; exact HTin).
         destruct (R2 T HTu LT) as [Hr|Hb].
         -- exfalso. unfold recorded in Hr. apply in_map_iff in Hr as ([id v]&Eid&Hin). cbn in Eid. subst id.
@@ -2050,9 +2174,11 @@ Proof.
               apply nodup_find; auto. apply (in_upto _ _ _ HTu).
         -- apply in_map_iff in Hn' as (n&<-&Hn). apply Hcl; assumption.
     + intros Hs. exact (wshape_after s s' g gain lost W Wm Hsh pm PM _ HfPM HgPM (R3 Hs)).
-    + intros Hpc. destruct (R4 Hpc) as [(PM'&k0&Hf'&Hk0&Hr)|Hn].
-      * left. rewrite HfPM in Hf'. injection Hf' as <-. exists (g PM), k0. split; [apply Hfind, HfPM|].
-        split; [|exact Hr]. rewrite (g_same _ _ _ _ Wm PM (proj1 (find_node_In _ _ _ HfPM)) HgPM). exact Hk0.
+    + intros Hpc. destruct (R4 Hpc) as [(k0&Hr&(PM'&Hf'&LPM)&Hab)|Hn].
+      * left. rewrite HfPM in Hf'. injection Hf' as <-. exists k0. split; [exact Hr|]. split.
+        -- exists (g PM). split; [apply Hfind, HfPM|].
+           rewrite (live_same_ver (g PM) PM) by (rewrite HgPM; reflexivity). exact LPM.
+        -- apply (wshape_lo_above s s' g gain lost W Wm Hsh pm PM); auto.
       * right. exact (wshape_after s s' g gain lost W Wm Hsh pm PM _ HfPM HgPM Hn).
 Qed.
 
@@ -2079,9 +2205,9 @@ Lemma deliver_main s c :
   WF (c_nodes s) (c_fresh s) -> InvC s -> Hcur s ->
   sc_pc (c_scan s) = CValidate ->
   find_node (sc_cur (c_scan s)) (c_nodes s) = Some c -> cn_ver c = sc_v (c_scan s) ->
-  sc_snap (c_scan s) = cn_keys c ->
-  deliver_res (c_scan s) =
-    filter (in_interval (sc_l (c_scan s)) (sc_r (c_scan s))) (all_keys (upto (sc_cur (c_scan s)) (c_nodes s))) /\
+  (forall k, In k (cn_keys c) -> In k (sc_snap (c_scan s))) ->
+  (forall k, In k (all_keys (upto (sc_cur (c_scan s)) (c_nodes s))) ->
+     in_interval (sc_l (c_scan s)) (sc_r (c_scan s)) k = true -> In k (deliver_res (c_scan s))) /\
   (forall n, In n (upto (sc_cur (c_scan s)) (c_nodes s)) -> live n = true ->
      In (cn_id n) (map fst (sc_nvset (c_scan s) ++ [(sc_cur (c_scan s), sc_v (c_scan s))])) \/
      In (cn_id n) (ids (before (fst (first_rec (c_scan s))) (c_nodes s)))).
@@ -2089,17 +2215,20 @@ Proof.
   intros W [C1 C2 C3] HC Hpc Hf Hv Hsnap. pose proof (wf_nodup _ _ W) as Hnd.
   destruct (find_node_In _ _ _ Hf) as [Hcin Hcid].
   assert (Hs : scanning (c_scan s) = true) by (unfold scanning; rewrite Hpc; reflexivity).
-  rewrite deliver_res_eq. unfold upto at 1 2. rewrite Hf.
+  assert (Hc : forall k, In k (lk c) -> in_interval (sc_l (c_scan s)) (sc_r (c_scan s)) k = true ->
+            In k (deliver_res (c_scan s))).
+  { intros k Hk Hi. rewrite deliver_res_eq. apply in_or_app. right. apply filter_In. split; [|exact Hi].
+    apply Hsnap. apply in_lk in Hk. apply Hk. }
+  unfold upto at 1 2. rewrite Hf.
   destruct (sc_nvset (c_scan s)) as [|p0 l0] eqn:Env.
-  - destruct (C2 eq_refl) as [Hres _]. rewrite Hres. cbn [app].
+  - destruct (C2 eq_refl) as [Hres _].
     unfold first_rec in *. rewrite Env in *. cbn [hd fst snd] in *.
     destruct C1 as (c'&Hf'&Hlo&Hdel). rewrite Hf in Hf'. injection Hf' as <-.
     assert (Lc : live c = true) by (eapply live_of_ver; eauto).
     split.
-    + rewrite all_keys_app, filter_app. rewrite (filter_below _ _ (all_keys (before _ _))).
-      * cbn [app]. rewrite all_keys_cons. cbn [all_keys flat_map]. rewrite app_nil_r.
-        rewrite (lk_keys _ _ _ W Hcin), Hsnap. reflexivity.
-      * intros k Hk. pose proof (before_below _ _ _ _ _ W Hf Lc Hk). lia.
+    + intros k Hk Hi. rewrite all_keys_app in Hk. apply in_app_or in Hk as [Hk|Hk].
+      * exfalso. pose proof (before_below _ _ _ _ _ W Hf Lc Hk). apply in_interval_l in Hi. lia.
+      * rewrite all_keys_cons in Hk. cbn [all_keys flat_map] in Hk. rewrite app_nil_r in Hk. apply Hc; assumption.
     + intros n Hn _. apply in_app_or in Hn as [Hn|[<-|[]]].
       * right. apply in_map. exact Hn.
       * left. cbn. left. symmetry. exact Hcid.
@@ -2113,9 +2242,13 @@ Proof.
     rewrite Hf in HfY. injection HfY as <-. rewrite Ebef.
     assert (Eu : upto pm (c_nodes s) = before pm (c_nodes s) ++ [PM]) by (unfold upto; rewrite HfPM; reflexivity).
     split.
-    + rewrite R1, Eu. rewrite !all_keys_app, !filter_app. rewrite !all_keys_cons, !filter_app.
-      rewrite (all_keys_dead d Hd). cbn [all_keys flat_map filter app]. rewrite !app_nil_r.
-      rewrite (lk_keys _ _ _ W Hcin), Hsnap. rewrite <- app_assoc. reflexivity.
+    + intros k Hk Hi. rewrite all_keys_app in Hk. apply in_app_or in Hk as [Hk|Hk].
+      * rewrite deliver_res_eq. apply in_or_app. left. apply R1; [|exact Hi]. rewrite Eu.
+        rewrite all_keys_app in Hk |- *. apply in_app_or in Hk as [Hk|Hk]; apply in_or_app; [left; exact Hk|].
+        rewrite all_keys_cons in Hk. apply in_app_or in Hk as [Hk|Hk].
+        -- right. rewrite all_keys_cons. apply in_or_app. left. exact Hk.
+        -- rewrite (all_keys_dead d Hd) in Hk. destruct Hk.
+      * rewrite all_keys_cons in Hk. cbn [all_keys flat_map] in Hk. rewrite app_nil_r in Hk. apply Hc; assumption.
     + intros n Hn Ln. rewrite map_app, in_app_iff.
       apply in_app_or in Hn as [Hn|[<-|[]]]; [|left; right; left; symmetry; exact Hcid].
       apply in_app_or in Hn as [Hn|[<-|Hn]].
@@ -2158,7 +2291,7 @@ Proof.
     assert (Hs : scanning (c_scan s) = true) by (unfold scanning; rewrite Hpc; reflexivity).
     destruct Hcases as [(n&Hc&->)|[(Hv&Hst&Hcases)|(Hv&Hdel&->)]].
     + eapply InvC_restart; cbn; eauto.
-    + destruct (ib_snap _ IB (or_intror Hpc) c Hf Hv) as [Hsnap Hnx].
+    + destruct (ib_snap _ IB (or_intror Hpc) c Hf Hv) as (Hsnap&Hnx&Hlo).
       destruct Hcases as [(Hend&->)|(nx&Hbey&Hnxt&->)].
       * constructor; cbn [set_scan c_scan c_nodes sc_done sc_pc sc_l sc_r sc_cur sc_v sc_res sc_nvset].
         -- unfold first_rec. cbn [sc_done sc_nvset sc_cur sc_v]. rewrite first_rec_snoc.
@@ -2172,7 +2305,8 @@ Proof.
            { unfold recorded, first_rec. cbn [sc_done sc_nvset sc_cur sc_v]. rewrite first_rec_snoc. exact D2. }
            split; [discriminate|]. intros _.
            destruct Hend as [Hb|Hn]; [left|right; rewrite <- Hn; exact Hnx].
-           apply beyond_spec in Hb as (k0&Hk0&Hr). exists c, k0. rewrite <- Hsnap. auto.
+           apply beyond_spec in Hb as (k0&Hk0&Hr). destruct (Hlo k0 Hk0) as [Lc Hab].
+           exists k0. split; [exact Hr|]. split; [exists c; auto|exact Hab].
       * constructor; cbn [set_scan c_scan c_nodes sc_adv sc_pc sc_l sc_r sc_cur sc_v sc_res sc_nvset].
         -- unfold first_rec. cbn [sc_adv sc_nvset sc_cur sc_v]. rewrite first_rec_snoc.
            apply (ic_first _ IC).
@@ -2207,22 +2341,28 @@ Proof.
   - split; [apply WF_init, Hk|]. split; [apply InvA_init|]. split; [apply InvB_init|apply InvC_init, Hk].
 Qed.
 
+(** ** 11. T4 after the faithfulness fix: what the recorded versions tell
+
+    A remove does not change the version word of its border, so "every recorded (node, version) pair is still
+    current" excludes inserts into, splits of and unlinks of the recorded nodes, not removes.  What holds:
+    - no undetected insert: every key of the interval that exists now is in the result;
+    - the result is the current keys of the interval plus keys removed since they were read (which, by
+      [chain_scan_sound], were present at an instant of the scan);
+    - without a remove since the invocation the result is exactly the current keys of the interval;
+    - the old exact form is refuted by a remove after the scan. *)
 Lemma filter_none {A} (f : A -> bool) l : (forall x, In x l -> f x = false) -> filter f l = [].
 Proof.
   induction l as [|x l IH]; [reflexivity|]. intros H. cbn [filter]. rewrite (H x (or_introl eq_refl)).
   apply IH. intros y Hy. apply H. right. exact Hy.
 Qed.
 
-(** T4 holds with and without the repair *)
-Theorem chain_scan_phantom_free_any : forall fx kss evs s,
-  kss_ok kss = true -> crun fx (cinit kss) evs = Some s ->
-  sc_pc (c_scan s) = CDone ->
-  (forall id v, In (id, v) (sc_nvset (c_scan s)) ->
-     exists n, find_node id (c_nodes s) = Some n /\ cn_ver n = v) ->
-  sc_res (c_scan s) = filter (in_interval (sc_l (c_scan s)) (sc_r (c_scan s))) (all_keys (c_nodes s)).
+(** at the level of the invariant (used again by ChainLimProofs) *)
+Lemma InvC_no_phantom_insert s k :
+  WF (c_nodes s) (c_fresh s) -> InvC s -> sc_pc (c_scan s) = CDone -> Hcur s ->
+  In k (all_keys (c_nodes s)) -> in_interval (sc_l (c_scan s)) (sc_r (c_scan s)) k = true ->
+  In k (sc_res (c_scan s)).
 Proof.
-  intros fx kss evs s Hk H Hpc HC. destruct (reach_C _ _ _ _ Hk H) as (W&_&_&IC).
-  assert (HC' : Hcur s) by exact HC.
+  intros W IC Hpc HC Hin Hi. pose proof HC as HC'. unfold Hcur in HC.
   destruct (sc_nvset (c_scan s)) as [|p0 l0] eqn:Env in |- *.
   { destruct (ic_empty _ IC Env) as [_ Hn]. contradiction. }
   assert (Hne : p0 :: l0 <> []) by discriminate.
@@ -2230,33 +2370,283 @@ Proof.
   destruct (ic_main _ IC HC' rest pm vm Env) as (R1&_&_&R4).
   assert (Hpmin : In (pm, vm) (sc_nvset (c_scan s))) by (rewrite Env; apply in_or_app; right; left; reflexivity).
   destruct (HC pm vm Hpmin) as (PM&HfPM&_).
-  rewrite R1. rewrite (before_after_split _ _ _ HfPM) at 2.
-  unfold upto. rewrite HfPM.
+  rewrite (before_after_split _ _ _ HfPM) in Hin.
   replace (before pm (c_nodes s) ++ PM :: after pm (c_nodes s))
-    with ((before pm (c_nodes s) ++ [PM]) ++ after pm (c_nodes s)) by (rewrite <- app_assoc; reflexivity).
-  rewrite (all_keys_app (before pm (c_nodes s) ++ [PM])), filter_app.
-  rewrite (filter_none _ (all_keys (after pm (c_nodes s)))); [rewrite app_nil_r; reflexivity|].
-  intros k Hkin. destruct (in_interval (sc_l (c_scan s)) (sc_r (c_scan s)) k) eqn:Hi; [|reflexivity].
-  exfalso. eapply (nothing_after _ _ pm PM); eauto.
-  destruct (R4 Hpc) as [(PM'&k0&Hf'&Hk0&Hr)|Hn]; [left|right; exact Hn].
-  rewrite HfPM in Hf'. injection Hf' as <-. eauto.
+    with ((before pm (c_nodes s) ++ [PM]) ++ after pm (c_nodes s)) in Hin by (rewrite <- app_assoc; reflexivity).
+  rewrite all_keys_app in Hin. apply in_app_or in Hin as [Hin|Hin].
+  - apply R1; [|exact Hi]. unfold upto. rewrite HfPM. exact Hin.
+  - exfalso. eapply (nothing_after _ _ pm); eauto.
+    destruct (R4 Hpc) as [(k0&Hr&_&Hab)|Hn]; [left; eauto|right; exact Hn].
 Qed.
 
-Theorem chain_scan_phantom_free : forall kss evs s,
-  kss_ok kss = true -> crun true (cinit kss) evs = Some s ->
+Theorem chain_scan_no_phantom_insert_any : forall fx kss evs s k,
+  kss_ok kss = true -> crun fx (cinit kss) evs = Some s ->
   sc_pc (c_scan s) = CDone ->
   (forall id v, In (id, v) (sc_nvset (c_scan s)) ->
      exists n, find_node id (c_nodes s) = Some n /\ cn_ver n = v) ->
-  sc_res (c_scan s) = filter (in_interval (sc_l (c_scan s)) (sc_r (c_scan s))) (all_keys (c_nodes s)).
-Proof. intros kss evs s. apply chain_scan_phantom_free_any. Qed.
+  In k (all_keys (c_nodes s)) -> in_interval (sc_l (c_scan s)) (sc_r (c_scan s)) k = true ->
+  In k (sc_res (c_scan s)).
+Proof.
+  intros fx kss evs s k Hk H Hpc HC Hin Hi. destruct (reach_C _ _ _ _ Hk H) as (W&_&_&IC).
+  apply InvC_no_phantom_insert; assumption.
+Qed.
 
-(** T4 is not vacuous: in the run of [chain_nonvacuous] every recorded version is still current *)
+Theorem chain_scan_no_phantom_insert : forall kss evs s k,
+  kss_ok kss = true -> crun true (cinit kss) evs = Some s -> sc_pc (c_scan s) = CDone ->
+  (forall id v, In (id, v) (sc_nvset (c_scan s)) -> exists n, find_node id (c_nodes s) = Some n /\ cn_ver n = v) ->
+  In k (all_keys (c_nodes s)) -> in_interval (sc_l (c_scan s)) (sc_r (c_scan s)) k = true ->
+  In k (sc_res (c_scan s)).
+Proof. intros kss evs s k. apply chain_scan_no_phantom_insert_any. Qed.
+
+(** *** sorted lists are determined by their elements *)
+Lemma all_keys_sorted ns :
+  (forall n, In n ns -> node_ok n) -> pairwise rel ns -> sorted_strict (all_keys ns) = true.
+Proof.
+  induction ns as [|x l IH]; [reflexivity|]. intros Hok HP. cbn [pairwise] in HP. destruct HP as [P1 P2].
+  rewrite all_keys_cons. apply sorted_app. split; [|split].
+  - unfold lk. destruct (live x); [apply Hok; left; reflexivity|reflexivity].
+  - apply IH; [intros n Hn; apply Hok; right; exact Hn|exact P2].
+  - intros a b Ha Hb. apply in_lk in Ha as [La Ha]. apply in_all_keys in Hb as (y&Hy&Hb).
+    apply in_lk in Hb as [Ly Hb]. destruct (P1 y Hy La Ly) as [_ Q]. specialize (Q a Ha).
+    destruct (Hok y (or_intror Hy)) as [_ Hlo]. specialize (Hlo b Hb). lia.
+Qed.
+Lemma WF_sorted ns f : WF ns f -> sorted_strict (all_keys ns) = true.
+Proof. intros W. apply all_keys_sorted; [apply (wf_ok _ _ W)|apply (wf_ord _ _ W)]. Qed.
+
+Lemma sorted_ext l1 : forall l2, sorted_strict l1 = true -> sorted_strict l2 = true ->
+  (forall k, In k l1 <-> In k l2) -> l1 = l2.
+Proof.
+  induction l1 as [|x l1 IH]; intros [|y l2] H1 H2 Hiff.
+  - reflexivity.
+  - exfalso. exact (proj2 (Hiff y) (or_introl eq_refl)).
+  - exfalso. exact (proj1 (Hiff x) (or_introl eq_refl)).
+  - apply sorted_cons in H1 as [A1 A2]. apply sorted_cons in H2 as [B1 B2].
+    assert (x = y).
+    { destruct (proj1 (Hiff x) (or_introl eq_refl)) as [E|Hx]; [symmetry; exact E|].
+      destruct (proj2 (Hiff y) (or_introl eq_refl)) as [E|Hy]; [exact E|].
+      specialize (A1 y Hy). specialize (B1 x Hx). lia. }
+    subst y. f_equal. apply IH; auto. intros k. split; intros Hk.
+    + destruct (proj1 (Hiff k) (or_intror Hk)) as [E|H']; [|exact H']. subst k. specialize (A1 x Hk). lia.
+    + destruct (proj2 (Hiff k) (or_intror Hk)) as [E|H']; [|exact H']. subst k. specialize (B1 x Hk). lia.
+Qed.
+Lemma sorted_NoDup l : sorted_strict l = true -> NoDup l.
+Proof.
+  induction l as [|x l IH]; intros H; [constructor|]. apply sorted_cons in H as [H1 H2].
+  constructor; [|auto]. intros Hin. specialize (H1 _ Hin). lia.
+Qed.
+Lemma nodup_app_keys (a b : list N) :
+  NoDup a -> NoDup b -> (forall x, In x a -> In x b -> False) -> NoDup (a ++ b).
+Proof.
+  induction a as [|x a IH]; intros Ha Hb Hd; [exact Hb|]. cbn [app]. apply NoDup_cons_iff in Ha as [Hx Ha].
+  constructor.
+  - intros Hin. apply in_app_or in Hin as [Hin|Hin]; [contradiction|]. apply (Hd x); [left; reflexivity|exact Hin].
+  - apply IH; auto. intros y Hy. apply Hd. right. exact Hy.
+Qed.
+
+(** the keys of the result that exist no more *)
+Definition removed_since (s : cstate) : list N :=
+  filter (fun k => negb (mem k (all_keys (c_nodes s)))) (sc_res (c_scan s)).
+
+Lemma in_removed_since s k :
+  In k (removed_since s) <-> In k (sc_res (c_scan s)) /\ ~ In k (all_keys (c_nodes s)).
+Proof. unfold removed_since. rewrite filter_In, negb_true_iff, mem_false. reflexivity. Qed.
+
+(** every result key either is a current key of the interval or exists no more (any [fx], no hypothesis on
+    the recorded versions: this is T2) *)
+Theorem chain_scan_result_split_any : forall fx kss evs s k,
+  kss_ok kss = true -> crun fx (cinit kss) evs = Some s -> In k (sc_res (c_scan s)) ->
+  In k (filter (in_interval (sc_l (c_scan s)) (sc_r (c_scan s))) (all_keys (c_nodes s))) \/
+  (In k (removed_since s) /\ In k (c_ever s)).
+Proof.
+  intros fx kss evs s k Hk H Hin. destruct (chain_scan_sound_any _ _ _ _ _ Hk H Hin) as [Hi He].
+  destruct (mem k (all_keys (c_nodes s))) eqn:M.
+  - left. apply filter_In. split; [apply mem_true, M|exact Hi].
+  - right. split; [|exact He]. apply in_removed_since. split; [exact Hin|apply mem_false, M].
+Qed.
+
+(** result = current keys of the interval + keys removed since they were read *)
+Theorem chain_scan_result_superset : forall kss evs s,
+  kss_ok kss = true -> crun true (cinit kss) evs = Some s -> sc_pc (c_scan s) = CDone ->
+  (forall id v, In (id, v) (sc_nvset (c_scan s)) -> exists n, find_node id (c_nodes s) = Some n /\ cn_ver n = v) ->
+  exists removed,
+    Permutation (sc_res (c_scan s))
+      (filter (in_interval (sc_l (c_scan s)) (sc_r (c_scan s))) (all_keys (c_nodes s)) ++ removed) /\
+    (forall k, In k removed -> ~ In k (all_keys (c_nodes s))).
+Proof.
+  intros kss evs s Hk H Hpc HC. exists (removed_since s).
+  destruct (reach_A _ _ _ _ Hk H) as [W IA]. pose proof (ia_sorted _ _ IA eq_refl) as Hsort.
+  split; [|intros k Hkr; apply in_removed_since in Hkr; apply Hkr].
+  apply NoDup_Permutation.
+  - apply sorted_NoDup, Hsort.
+  - apply nodup_app_keys.
+    + apply sorted_NoDup, sorted_filter, (WF_sorted _ _ W).
+    + apply NoDup_filter, sorted_NoDup, Hsort.
+    + intros x Hx Hr. apply filter_In in Hx as [Hx _]. apply in_removed_since in Hr as [_ Hr]. contradiction.
+  - intros k. rewrite in_app_iff. split.
+    + intros Hin. destruct (chain_scan_result_split_any _ _ _ _ _ Hk H Hin) as [H1|[H1 _]]; auto.
+    + intros [Hin|Hin].
+      * apply filter_In in Hin as [Hin Hi]. eapply chain_scan_no_phantom_insert; eauto.
+      * apply in_removed_since in Hin. apply Hin.
+Qed.
+
+(** the sublist form: the current keys of the interval are the result without the keys that exist no more,
+    in the same order *)
+Theorem chain_scan_current_keys_sublist : forall kss evs s,
+  kss_ok kss = true -> crun true (cinit kss) evs = Some s -> sc_pc (c_scan s) = CDone ->
+  (forall id v, In (id, v) (sc_nvset (c_scan s)) -> exists n, find_node id (c_nodes s) = Some n /\ cn_ver n = v) ->
+  filter (in_interval (sc_l (c_scan s)) (sc_r (c_scan s))) (all_keys (c_nodes s)) =
+  filter (fun k => mem k (all_keys (c_nodes s))) (sc_res (c_scan s)).
+Proof.
+  intros kss evs s Hk H Hpc HC. destruct (reach_A _ _ _ _ Hk H) as [W IA].
+  apply sorted_ext.
+  - apply sorted_filter, (WF_sorted _ _ W).
+  - apply sorted_filter, (ia_sorted _ _ IA eq_refl).
+  - intros k. rewrite !filter_In, mem_true. split.
+    + intros [Hin Hi]. split; [|exact Hin]. eapply chain_scan_no_phantom_insert; eauto.
+    + intros [Hin Hm]. split; [exact Hm|]. apply (ia_res _ _ IA k Hin).
+Qed.
+
+(** *** no remove since the invocation: the old exact form *)
+Definition NR (s : cstate) : Prop := forall k, In k (c_ever s) -> In k (all_keys (c_nodes s)).
+Definition no_rem (e : cev) : Prop := forall k, e <> ERem k.
+
+Lemma NR_step fx s e s' :
+  WF (c_nodes s) (c_fresh s) -> no_rem e -> NR s -> cstep fx s e = Some s' -> NR s'.
+Proof.
+  intros W Hnr HN H. pose proof (wf_nodup _ _ W) as Hnd. unfold NR in *. destruct e.
+  - apply cstep_ins in H as (n&Hk&Hc&->). cbn [c_nodes c_ever]. rewrite update_node_map by exact Hnd.
+    pose proof (wmap_ins _ _ k n W Hc) as Wm.
+    destruct (cover_spec _ _ _ Hc) as (l1&l2&E&Ln&_).
+    assert (Hin : In n (c_nodes s)) by (rewrite E; apply in_or_app; right; left; reflexivity).
+    assert (Hold : forall k', In k' (all_keys (c_nodes s)) ->
+              In k' (all_keys (map (upd (cn_id n) (ins_f k)) (c_nodes s)))).
+    { intros k' Hk'. destruct (all_keys_map_sup _ _ _ _ k' Wm Hk') as [H'|[]]. exact H'. }
+    assert (Hnew : In k (all_keys (map (upd (cn_id n) (ins_f k)) (c_nodes s)))).
+    { apply in_all_keys. exists (upd (cn_id n) (ins_f k) n). split; [apply in_map, Hin|].
+      unfold upd. rewrite N.eqb_refl. apply in_lk. split; [exact Ln|]. cbn. apply in_insert_sorted. auto. }
+    intros k' Hk'. destruct (scanning (c_scan s)); [destruct Hk' as [<-|Hk']|]; auto.
+  - exfalso. exact (Hnr k eq_refl).
+  - apply cstep_split in H as (T&Hf&LT&Hm&Hx&->). cbn [c_nodes c_ever]. rewrite update_node_map by exact Hnd.
+    pose proof (wmap_split _ _ id T m W Hf LT) as Wm. destruct (find_node_In _ _ _ Hf) as [HinT HidT].
+    intros k' Hk'. apply in_all_keys_insert_after.
+    destruct (all_keys_map_sup _ _ _ _ k' Wm (HN k' Hk')) as [H'|H']; [left; exact H'|right].
+    split; [|exact H']. rewrite ids_map by apply (g_id _ _ _ _ Wm). rewrite <- HidT. apply in_map, HinT.
+  - apply cstep_unlink in H as (U&Hf&LU&HK&[(_&NX&Hfl&->)|(_&->)]); cbn [c_nodes c_ever].
+    + destruct (L_right_facts _ _ _ _ _ W Hf LU Hfl) as (A1&A2&A3&A4).
+      rewrite unlink_right_map by exact Hnd.
+      pose proof (wmap_unlink _ _ id U (cn_next U) _ W Hf LU HK A1 A2 A3 A4) as Wm.
+      intros k' Hk'. destruct (all_keys_map_sup _ _ _ _ k' Wm (HN k' Hk')) as [H'|[]]. exact H'.
+    + rewrite unlink_left_map by exact Hnd.
+      assert (Wm : wmap (c_nodes s) (unl_g id (cn_next U) (fun x => x)) (fun _ => False) (fun _ => False)).
+      { eapply wmap_unlink; eauto; intros; solve [lia|left; reflexivity]. }
+      intros k' Hk'. destruct (all_keys_map_sup _ _ _ _ k' Wm (HN k' Hk')) as [H'|[]]. exact H'.
+  - apply cstep_begin in H as (_&n&_&->). cbn. auto.
+  - apply cstep_read in H as (_&c&_&->). exact HN.
+  - apply cstep_nextver in H as (_&->). exact HN.
+  - apply cstep_validate in H as (_&c&_&[(n&_&->)|[(_&_&[(_&->)|(nx&_&_&->)])|(_&_&->)]]); exact HN.
+Qed.
+
+Lemma crun_inv_ev (Q : cev -> Prop) (P : cstate -> Prop) fx :
+  (forall s e s', Q e -> P s -> cstep fx s e = Some s' -> P s') ->
+  forall evs s s', (forall e, In e evs -> Q e) -> P s -> crun fx s evs = Some s' -> P s'.
+Proof.
+  intros Hstep. induction evs as [|e evs IH]; intros s s' HQ HP; cbn [crun].
+  - intros H. injection H as <-. exact HP.
+  - destruct (cstep fx s e) as [s1|] eqn:E; [|discriminate]. intros H.
+    apply (IH s1 s'); [intros e' He'; apply HQ; right; exact He'| |exact H].
+    eapply Hstep; eauto. apply HQ. left. reflexivity.
+Qed.
+
+Lemma crun_app fx evs1 : forall s evs2,
+  crun fx s (evs1 ++ evs2) = match crun fx s evs1 with Some s1 => crun fx s1 evs2 | None => None end.
+Proof.
+  induction evs1 as [|e evs1 IH]; intros s evs2; cbn [app crun]; [reflexivity|].
+  destruct (cstep fx s e); [apply IH|reflexivity].
+Qed.
+
+Lemma NR_run fx evs s s' :
+  WF (c_nodes s) (c_fresh s) -> NR s -> (forall k, ~ In (ERem k) evs) -> crun fx s evs = Some s' -> NR s'.
+Proof.
+  intros W HN Hnr H.
+  assert (HP : WF (c_nodes s') (c_fresh s') /\ NR s'); [|apply HP].
+  apply (crun_inv_ev no_rem (fun s => WF (c_nodes s) (c_fresh s) /\ NR s) fx) with (evs := evs) (s := s); auto.
+  - intros s0 e s1 HQ [W0 N0] Hs. split; [eapply WF_step; eauto|eapply NR_step; eauto].
+  - intros e He k ->. exact (Hnr k He).
+Qed.
+
+Lemma phantom_free_core s :
+  WF (c_nodes s) (c_fresh s) -> InvA true s -> NR s ->
+  (forall k, In k (all_keys (c_nodes s)) -> in_interval (sc_l (c_scan s)) (sc_r (c_scan s)) k = true ->
+             In k (sc_res (c_scan s))) ->
+  sc_res (c_scan s) = filter (in_interval (sc_l (c_scan s)) (sc_r (c_scan s))) (all_keys (c_nodes s)).
+Proof.
+  intros W IA HN Hsup. apply sorted_ext.
+  - apply (ia_sorted _ _ IA eq_refl).
+  - apply sorted_filter, (WF_sorted _ _ W).
+  - intros k. rewrite filter_In. split.
+    + intros Hin. destruct (ia_res _ _ IA k Hin) as [Hi He]. split; [apply HN, He|exact Hi].
+    + intros [Hin Hi]. apply Hsup; assumption.
+Qed.
+
+(** no remove after the invocation of the scan: whatever happened before, the result is exact *)
+Theorem chain_scan_phantom_free_no_removes_since_begin : forall kss pre l r post s,
+  kss_ok kss = true -> crun true (cinit kss) (pre ++ EBegin l r :: post) = Some s -> sc_pc (c_scan s) = CDone ->
+  (forall k, ~ In (ERem k) post) ->
+  (forall id v, In (id, v) (sc_nvset (c_scan s)) -> exists n, find_node id (c_nodes s) = Some n /\ cn_ver n = v) ->
+  sc_res (c_scan s) = filter (in_interval (sc_l (c_scan s)) (sc_r (c_scan s))) (all_keys (c_nodes s)).
+Proof.
+  intros kss pre l r post s Hk H Hpc Hnr HC.
+  destruct (reach_A _ _ _ _ Hk H) as [W IA].
+  apply phantom_free_core; auto; [|intros k; eapply chain_scan_no_phantom_insert; eauto].
+  rewrite crun_app in H. destruct (crun true (cinit kss) pre) as [s0|] eqn:E0; [|discriminate].
+  cbn [crun] in H. destruct (cstep true s0 (EBegin l r)) as [s1|] eqn:E1; [|discriminate].
+  destruct (reach_A _ _ _ _ Hk E0) as [W0 _]. pose proof (WF_step _ _ _ _ W0 E1) as W1.
+  apply (NR_run true post s1 s W1); auto.
+  apply cstep_begin in E1 as (_&n&_&->). intros k. cbn. auto.
+Qed.
+
+(** no remove at all *)
+Theorem chain_scan_phantom_free_no_removes : forall kss evs s,
+  kss_ok kss = true -> crun true (cinit kss) evs = Some s -> sc_pc (c_scan s) = CDone ->
+  (forall k, ~ In (ERem k) evs) ->
+  (forall id v, In (id, v) (sc_nvset (c_scan s)) -> exists n, find_node id (c_nodes s) = Some n /\ cn_ver n = v) ->
+  sc_res (c_scan s) = filter (in_interval (sc_l (c_scan s)) (sc_r (c_scan s))) (all_keys (c_nodes s)).
+Proof.
+  intros kss evs s Hk H Hpc Hnr HC. destruct (reach_A _ _ _ _ Hk H) as [W IA].
+  apply phantom_free_core; auto; [|intros k; eapply chain_scan_no_phantom_insert; eauto].
+  apply (NR_run true evs (cinit kss) s (WF_init _ Hk)); auto. intros k [].
+Qed.
+
+(** the exact form of T4 is false once removes are not recorded in the versions: scan everything, then remove
+    20 -- every recorded pair is still current, the result still holds 20 *)
+Definition refute_trace : list cev :=
+  [EBegin 0 None; ERead; ENextVer; EValidate; ERead; ENextVer; EValidate; ERem 20].
+
+Theorem chain_phantom_free_with_remove_refuted :
+  exists evs s, crun true (cinit [[10]; [20; 30]]) evs = Some s /\ sc_pc (c_scan s) = CDone /\
+    (forall id v, In (id, v) (sc_nvset (c_scan s)) -> exists n, find_node id (c_nodes s) = Some n /\ cn_ver n = v) /\
+    sc_res (c_scan s) = [10; 20; 30] /\ all_keys (c_nodes s) = [10; 30] /\
+    sc_res (c_scan s) <> filter (in_interval (sc_l (c_scan s)) (sc_r (c_scan s))) (all_keys (c_nodes s)).
+Proof.
+  exists refute_trace.
+  destruct (crun true (cinit [[10]; [20; 30]]) refute_trace) as [s|] eqn:E; [|vm_compute in E; discriminate].
+  exists s. split; [reflexivity|].
+  assert (Some s = crun true (cinit [[10]; [20; 30]]) refute_trace) as H by (symmetry; exact E).
+  vm_compute in H. injection H as ->. cbn [c_scan c_nodes sc_pc sc_nvset sc_res sc_l sc_r].
+  split; [reflexivity|]. split.
+  { intros id v [Hin|[Hin|[]]]; injection Hin as <- <-; eexists; (split; [vm_compute; reflexivity|reflexivity]). }
+  split; [reflexivity|]. split; [vm_compute; reflexivity|]. vm_compute. discriminate.
+Qed.
+
+(** the hypotheses of the theorems above are satisfiable: in the run of [chain_nonvacuous] (which contains a
+    remove, an unlink and a restart) every recorded version is still current at the end *)
 Example chain_phantom_free_nonvacuous :
   exists evs s, crun true (cinit [[10]; [20; 30]]) evs = Some s /\ sc_pc (c_scan s) = CDone /\
     sc_nvset (c_scan s) <> [] /\
     forallb (fun p => match find_node (fst p) (c_nodes s) with
                       | Some n => cver_eqb (cn_ver n) (snd p) | None => false end)
-            (sc_nvset (c_scan s)) = true.
+            (sc_nvset (c_scan s)) = true /\
+    sc_res (c_scan s) = filter (in_interval (sc_l (c_scan s)) (sc_r (c_scan s))) (all_keys (c_nodes s)).
 Proof.
   exists (f8_trace ++ [ERead; ENextVer; EValidate]).
   destruct (crun true (cinit [[10]; [20; 30]]) (f8_trace ++ [ERead; ENextVer; EValidate])) as [s|] eqn:E;
@@ -2267,15 +2657,45 @@ Proof.
   vm_compute in H. injection H as ->. vm_compute. repeat split; try reflexivity. discriminate.
 Qed.
 
+(** ... and a run with an insert and a split but no remove after the invocation, to which the exact theorem
+    applies (the remove before the invocation does not matter) *)
+Example chain_phantom_free_no_removes_nonvacuous :
+  exists pre l r post s, crun true (cinit [[10]; [20; 30]]) (pre ++ EBegin l r :: post) = Some s /\
+    sc_pc (c_scan s) = CDone /\ (forall k, ~ In (ERem k) post) /\
+    (forall id v, In (id, v) (sc_nvset (c_scan s)) -> exists n, find_node id (c_nodes s) = Some n /\ cn_ver n = v) /\
+    sc_res (c_scan s) = [10; 25; 30].
+Proof.
+  exists [ERem 20], 0, None, [ERead; ENextVer; EValidate; EIns 25; ERead; ENextVer; EValidate; ERead; ENextVer; EValidate].
+  set (evs := [ERem 20] ++ EBegin 0 None ::
+              [ERead; ENextVer; EValidate; EIns 25; ERead; ENextVer; EValidate; ERead; ENextVer; EValidate]).
+  destruct (crun true (cinit [[10]; [20; 30]]) evs) as [s|] eqn:E; [|vm_compute in E; discriminate].
+  exists s. split; [reflexivity|].
+  assert (Some s = crun true (cinit [[10]; [20; 30]]) evs) as H by (symmetry; exact E).
+  vm_compute in H. injection H as ->. cbn [c_scan c_nodes sc_pc sc_nvset sc_res sc_l sc_r].
+  split; [reflexivity|]. split.
+  { intros k Hin. cbn in Hin. repeat (destruct Hin as [Hin|Hin]; [discriminate|]). exact Hin. }
+  split; [|reflexivity].
+  intros id v Hin. cbn [In] in Hin.
+  repeat (destruct Hin as [Hin|Hin]; [injection Hin as <- <-; eexists; (split; [vm_compute; reflexivity|reflexivity])|]).
+  destruct Hin.
+Qed.
+
 Print Assumptions chain_scan_ascending.
 Print Assumptions chain_scan_sound.
 Print Assumptions chain_scan_sound_any.
 Print Assumptions chain_scan_no_lost_stable_key.
 Print Assumptions chain_scan_no_lost_stable_key_any.
-Print Assumptions chain_scan_phantom_free.
-Print Assumptions chain_scan_phantom_free_any.
+Print Assumptions chain_scan_no_phantom_insert.
+Print Assumptions chain_scan_no_phantom_insert_any.
+Print Assumptions chain_scan_result_split_any.
+Print Assumptions chain_scan_result_superset.
+Print Assumptions chain_scan_current_keys_sublist.
+Print Assumptions chain_scan_phantom_free_no_removes.
+Print Assumptions chain_scan_phantom_free_no_removes_since_begin.
+Print Assumptions chain_phantom_free_with_remove_refuted.
 Print Assumptions chain_stable_present.
 Print Assumptions chain_present_ever.
 Print Assumptions chain_original_not_ascending.
 Print Assumptions chain_nonvacuous.
 Print Assumptions chain_phantom_free_nonvacuous.
+Print Assumptions chain_phantom_free_no_removes_nonvacuous.
